@@ -23,6 +23,22 @@ func MarshalSchema(schema *ast.Schema) []byte {
 type marshaler struct {
 	w      *bytes.Buffer
 	indent int
+	// bare and ns are the declarations of the empty namespace and of the namespace being written.
+	bare, ns scope
+}
+
+// scope holds the type declarations of one namespace.
+type scope struct {
+	entities    ast.Entities
+	enums       ast.Enums
+	commonTypes ast.CommonTypes
+}
+
+func (s scope) declares(name string) bool {
+	_, isEntity := s.entities[types.Ident(name)]
+	_, isEnum := s.enums[types.Ident(name)]
+	_, isCommonType := s.commonTypes[types.Ident(name)]
+	return isEntity || isEnum || isCommonType
 }
 
 func (m *marshaler) writeIndent() {
@@ -33,6 +49,7 @@ func (m *marshaler) writeIndent() {
 
 func (m *marshaler) marshalSchema(schema *ast.Schema) {
 	first := true
+	m.bare = scope{schema.Entities, schema.Enums, schema.CommonTypes}
 
 	// Marshal bare declarations
 	m.marshalDecls(&first, schema.Entities, schema.Enums, schema.Actions, schema.CommonTypes)
@@ -50,7 +67,9 @@ func (m *marshaler) marshalSchema(schema *ast.Schema) {
 		fmt.Fprintf(m.w, "namespace %s {\n", name)
 		m.indent++
 		innerFirst := true
+		m.ns = scope{ns.Entities, ns.Enums, ns.CommonTypes}
 		m.marshalDecls(&innerFirst, ns.Entities, ns.Enums, ns.Actions, ns.CommonTypes)
+		m.ns = scope{}
 		m.indent--
 		m.writeIndent()
 		m.w.WriteString("}\n")
@@ -158,13 +177,13 @@ func (m *marshaler) marshalAnnotations(annotations ast.Annotations) {
 func (m *marshaler) marshalType(t ast.IsType) {
 	switch t := t.(type) {
 	case ast.StringType:
-		m.w.WriteString("String")
+		m.marshalBuiltin("String")
 	case ast.LongType:
-		m.w.WriteString("Long")
+		m.marshalBuiltin("Long")
 	case ast.BoolType:
-		m.w.WriteString("Bool")
+		m.marshalBuiltin("Bool")
 	case ast.ExtensionType:
-		m.w.WriteString(string(t))
+		m.marshalBuiltin(string(t))
 	case ast.SetType:
 		m.w.WriteString("Set<")
 		m.marshalType(t.Element)
@@ -176,6 +195,17 @@ func (m *marshaler) marshalType(t ast.IsType) {
 	case ast.TypeRef:
 		m.w.WriteString(string(t))
 	}
+}
+
+// marshalBuiltin writes the name of a built-in type. A type name is looked up in the current
+// namespace and in the empty namespace before it is taken as a built-in, so where one of them
+// declares an entity type, enum or common type of this name the built-in has to be written with
+// the reserved __cedar namespace.
+func (m *marshaler) marshalBuiltin(name string) {
+	if m.ns.declares(name) || m.bare.declares(name) {
+		m.w.WriteString("__cedar::")
+	}
+	m.w.WriteString(name)
 }
 
 func (m *marshaler) marshalRecordType(rec ast.RecordType) {
